@@ -10,7 +10,7 @@ import (
 )
 
 func gen(g *vh.Gen) {
-	o := smtpd.Opts{Garbage: 0.35, MaxBody: 120, SizeParams: true}
+	o := smtpd.Opts{Garbage: 0.35, MaxBody: 120, SizeParams: true, Caps: true}
 	for i := 0; i < g.N(600, 30000); i++ {
 		oo := o
 		if g.Chance(0.15) { // small limits: oversize blocks refused in mid-connection, then the dialogue goes on
